@@ -242,7 +242,15 @@ pub fn scenario(g: &mut G, ctx: &RunCtx) -> RunReport {
             let _prepared = sib.prepare();
         }
         if place == Place::SiblingSent {
-            let mut sib = session.get(url).danger_accept_invalid_certs(accept_certs).danger_accept_invalid_hostnames(accept_hosts);
+            // a flag is only touched when it is waived (as callers do): a request that merely adds a root
+            // calls no other TLS setter
+            let mut sib = session.get(url);
+            if accept_certs {
+                sib = sib.danger_accept_invalid_certs(true);
+            }
+            if accept_hosts {
+                sib = sib.danger_accept_invalid_hostnames(true);
+            }
             if root_added {
                 sib = sib.add_root_certificate(my_root());
             }
@@ -254,7 +262,18 @@ pub fn scenario(g: &mut G, ctx: &RunCtx) -> RunReport {
         // TLS sessions the peer has seen before the request under test
         let sessions_before = tls_log_in.lock().unwrap().sessions.len();
         let mut rb = session.get(url).header("X-Marker", "request-under-test");
-        if place == Place::Request || place == Place::Override || place == Place::AfterStrictSibling {
+        if place == Place::AfterStrictSibling {
+            if accept_certs {
+                rb = rb.danger_accept_invalid_certs(true);
+            }
+            if accept_hosts {
+                rb = rb.danger_accept_invalid_hostnames(true);
+            }
+            if root_added {
+                rb = rb.add_root_certificate(my_root());
+            }
+        }
+        if place == Place::Request || place == Place::Override {
             rb = rb.danger_accept_invalid_certs(accept_certs).danger_accept_invalid_hostnames(accept_hosts);
             if root_added {
                 rb = rb.add_root_certificate(my_root());
